@@ -198,7 +198,8 @@ def local_integrity_program(rng):
     local intact"""
     r = rng
     L = ["#[constructor(new)] class Box2 { fn m(self, a) { return a; } #[static] fn s() { return 1; } }", "class Box2b { #[constructor] fn new(self, a, b) { self.a = a; } }",
-         "var done_fiber = Fiber.new(|| 1); done_fiber.call();"]
+         "var done_fiber = Fiber.new(|| 1); done_fiber.call();",
+         "fn deeper(f, n) { var pad = [n]; if n <= 0 { return f(); } return deeper(f, n - 1); }"]
     L[0] = "class Box2 { #[constructor] fn new(self, a, b) { self.a = a; self.b = b; } fn m(self, a) { return a; } #[static] fn s() { return 1; } }"
     nf = r.range(1, 4)
     for fi in range(nf):
@@ -206,9 +207,17 @@ def local_integrity_program(rng):
         body = ["fn f%d(p) {" % fi, "    var l0 = [p, \"l0\"];", "    var l1 = \"l1-${p}\";"]
         for k in range(2, nloc):
             body.append("    var l%d = %s;" % (k, r.choice(["(p, %d)" % k, "\"s%d\"" % k, "%d" % (k * 11), "|| l0", "[l1]"])))
+        # closures over the handling function's own locals, made before the try: the exception (thrown here or several
+        # frames down) must leave variable and closure looking at the same thing
+        shared = r.chance(60)
+        if shared:
+            body.append("    var getl = || [l0, l1];")
+            body.append("    var setl = |v| { l1 = v; l0.push(\"via setl\"); return l1; };")
         ntry = r.range(1, 3)
         for t in range(ntry):
             call = r.choice(FAILING_CALLS)
+            if r.chance(40):
+                call = "deeper(|| %s, %d)" % (call, r.range(0, 3))
             inner = r.chance(40)
             body.append("    try {")
             if inner:
@@ -229,6 +238,11 @@ def local_integrity_program(rng):
             if r.chance(50):
                 body.append("    var m%d = [\"mid\", l1];" % t)
                 body.append("    print(m%d);" % t)
+            if shared:
+                body.append("    l1 = l1 + \"+direct%d\";" % t)
+                body.append("    print(getl());")
+                body.append("    print(setl(\"set%d\"));" % t)
+                body.append("    print([l0, l1]);")
         shown = ["l%d" % k for k in range(nloc) if k < 2]
         body.append("    print([%s]);" % ", ".join(shown))
         for k in range(2, nloc):
